@@ -170,7 +170,7 @@ Proof.
     pose proof (op_pre_dq w X o I Hpo) as Hdq.
     destruct (qf_step_refines w X o I Hdq) as (w1 & r & X1 & E & I1 & _ & _).
     pose proof (qf_step_card w X o w1 r I C E) as C1.
-    rewrite E in *. destruct (IH w1 X1 I1 C1 Hpr) as (w2 & rs & E2 & C2 & D).
+    rewrite E in *. cbn [fst snd] in *. destruct (IH w1 X1 I1 C1 Hpr) as (w2 & rs & E2 & C2 & D).
     rewrite E2. cbn [fst snd]. exists w2, (r :: rs). auto.
 Qed.
 
@@ -197,7 +197,7 @@ Proof.
     - cbn [qf_hist_pre] in Hq. destruct Hq as [Hpo Hpr].
       pose proof (op_pre_dq w X o I Hpo) as Hdq.
       destruct (qf_step_refines w X o I Hdq) as (w1 & r & X1 & E & I1 & _ & _).
-      rewrite E in *. destruct (IH w1 X1 I1 Hpr) as (w2 & rs & X2 & E2 & I2).
+      rewrite E in *. cbn [fst snd] in *. destruct (IH w1 X1 I1 Hpr) as (w2 & rs & X2 & E2 & I2).
       rewrite E2. cbn [fst snd]. exists w2, (r :: rs), X2. auto. }
   destruct (R nine_pushes q_world0 ([], []) world0_inv Hp) as (w' & rs & X' & E & I').
   exists X'. unfold world9. rewrite E. apply (clear_inv w' X' I').
